@@ -74,12 +74,12 @@ static void *__va_arg_agg(__va_elem *ap, int klass, int sz, int align, void *tmp
 
 #define va_arg(ap, ty)                                                  \
   ({                                                                    \
-    int klass = __builtin_reg_class(ty);                                \
+    int __va_klass = __builtin_reg_class(ty);                           \
     typeof(ty) __va_tmp;                                                \
-    *(ty *)(klass == 0 ? __va_arg_gp(ap, sizeof(ty), _Alignof(ty)) :    \
-            klass == 1 ? __va_arg_fp(ap, sizeof(ty), _Alignof(ty)) :    \
-            klass == 2 ? __va_arg_mem(ap, sizeof(ty), _Alignof(ty)) :   \
-            __va_arg_agg(ap, klass, sizeof(ty), _Alignof(ty), &__va_tmp)); \
+    *(ty *)(__va_klass == 0 ? __va_arg_gp(ap, sizeof(ty), _Alignof(ty)) : \
+            __va_klass == 1 ? __va_arg_fp(ap, sizeof(ty), _Alignof(ty)) : \
+            __va_klass == 2 ? __va_arg_mem(ap, sizeof(ty), _Alignof(ty)) : \
+            __va_arg_agg(ap, __va_klass, sizeof(ty), _Alignof(ty), &__va_tmp)); \
   })
 
 #define va_copy(dest, src) ((dest)[0] = (src)[0])
